@@ -147,8 +147,12 @@ def discover(model: SrcModel, modname: str, fname: Optional[str] = None) -> Dict
     except Unsupported as err:
         # the function inspects the characters of its argument (length checks, scans ...): decide it on concrete strings instead
         long_ = " u ".join(f"([{i}] O [{i + 1}] x [{i + 2}])" for i in range(1, 40, 3)) + " X [77] o [78] U [79][901] ∧ [80] ∨ [81]"
-        texts = ["[1] U [2]", "[1]u[2]o[3]", long_, long_.replace(" ", "")] if modname == COND_MOD else \
-            ["Muss [1] U [2]", "muss[1]", "Muss " + long_ + " Soll [2] Kann", "X" + long_.replace(" ", "")]
+        # ... including shapes a textual "simplification" before parsing would rewrite: doubled brackets that are not a
+        # redundant pair, repeated keys, packages, time conditions and every operator spelling (C01-r2)
+        shapes = ["[5]U(([1]O[2])X([3]O[4]))", "(([1]))U((([2])))", "[1]U[1]U[1]O[1]", "[10P1..5]U[UB1]∧[2]⊻[3]∨[4]", "[1][501]U([2][902])"]
+        texts = ["[1] U [2]", "[1]u[2]o[3]", long_, long_.replace(" ", "")] + shapes if modname == COND_MOD else \
+            ["Muss [1] U [2]", "muss[1]", "Muss " + long_ + " Soll [2] Kann", "X" + long_.replace(" ", "")] + \
+            ["Muss" + shapes[0] + "Soll[2]Kann", "X" + shapes[1], "muss[1]U[1]soll[1]kann[1]", "O" + shapes[3], "Muss " + shapes[4] + " Kann"]
         paths = []
         try:
             for t in texts:
